@@ -35,9 +35,19 @@ def main(tier, replay, t0):
         for o in spec.overrides:
             cells[(o["ty"], o.get("id") is not None, o.get("default") is not None)] = 1
         for x in c.cfgs:
-            if c.gen[x["id"]].get("result") != "ok" or not camp.module_ok(c.id, x["id"]):
-                continue
             base = {"wgsl": c.wgsl, "options": x["opt"], "overrides": spec.overrides}
+            if c.gen[x["id"]].get("result") != "ok":
+                continue
+            if not camp.module_ok(c.id, x["id"]):
+                bad = [d for d in probes.unexpected_rejection(camp, c.id, x["id"])
+                       if any(k in (d.get("rendered") or d.get("message") or "") for k in
+                              ("OverrideConstants", "constants", "overrides"))]
+                if bad:
+                    viol.append(Violation("override-code-does-not-compile", bad[0].get("code")
+                                          or "?", "generated override handling is rejected by "
+                                          "rustc: %s" % bad[0].get("message"),
+                                          dict(base, rustc=[d["message"] for d in bad][:3])))
+                continue
             ps_ = camp.probe_state(c.id, x["id"], "probe_c12")
             if not ps_ or not ps_["accepted"]:
                 d = (ps_ or {}).get("diags") or [{}]
